@@ -755,6 +755,19 @@ func (v *c06Impl) exec(line string) (out string) {
 			}
 		}
 		return "ok " + v.dump(false)
+	case "install": // Restore() of the held snapshot on the RUNNING server (snapshot installed on a lagging follower)
+		if !v.hasSnap {
+			return "bad-op"
+		}
+		if err := v.s.Restore(io.NopCloser(bytes.NewReader(v.snap))); err != nil {
+			v.dead = true
+			return "err restore"
+		}
+		if werr := v.wait(); werr != nil {
+			v.dead = true
+			return "err hang"
+		}
+		return "ok " + v.dump(false)
 	case "finish":
 		if len(t) != 3 {
 			return "bad-op"
@@ -1425,6 +1438,68 @@ func (cx *c06Ctx) judge(ops []string, splits [][2]int, scratch bool, bucket stri
 	}
 }
 
+// c06Install: snapshot after k ops, the server goes on to op j, then the snapshot is installed on the
+// running server (Restore without a restart: what Raft does to a follower that fell behind the log
+// compaction). c06Fresh: the same snapshot restored on a freshly started server.
+func c06Install(ops []string, k, j int) []string {
+	p := []string{"c06 begin"}
+	for i := 0; i < k; i++ {
+		p = append(p, fmt.Sprintf("c06 apply %d L %s", i+1, ops[i]))
+	}
+	p = append(p, "c06 snapshot")
+	for i := k; i < j; i++ {
+		p = append(p, fmt.Sprintf("c06 apply %d L %s", i+1, ops[i]))
+	}
+	return append(p, "c06 install")
+}
+
+func c06Fresh(ops []string, k int) []string {
+	p := []string{"c06 begin"}
+	for i := 0; i < k; i++ {
+		p = append(p, fmt.Sprintf("c06 apply %d L %s", i+1, ops[i]))
+	}
+	return append(p, "c06 snapshot", "c06 restart")
+}
+
+// c06MetaPart: the S[...] G[...] part of a state dump (everything but the data directories and the
+// activity index, which a restart in a new directory legitimately changes).
+func c06MetaPart(dump string) string {
+	if i := strings.Index(dump, " D["); i >= 0 {
+		return dump[:i]
+	}
+	return dump
+}
+
+// installs judges snapshot installs on a running server: against the model step by step, and by
+// the statement itself - Restore discards all previous state, so the metadata after the install is
+// the metadata a freshly started server restores from the same snapshot.
+func (cx *c06Ctx) installs(ops []string, pairs [][2]int) {
+	for _, kj := range pairs {
+		k, j := kj[0], kj[1]
+		if k > j || j > len(ops) {
+			continue
+		}
+		prog := c06Install(ops, k, j)
+		out, agree := cx.both(&cx.a, prog)
+		cx.res.Count(fmt.Sprintf("install:%d:%d:%s", k, j, strings.Join(ops, "|")), j > k)
+		cx.res.Dist("install:dirty=" + strconv.Itoa(j-k))
+		last := out[len(out)-1]
+		if !strings.HasPrefix(last, "ok ") {
+			cx.spec(prog, "install-fails", "installing a snapshot on a running server fails: "+last, []string{last}, nil)
+			continue
+		}
+		if !agree {
+			continue
+		}
+		fresh := cx.b.run(c06Fresh(ops, k))
+		want := fresh[len(fresh)-1]
+		if strings.HasPrefix(want, "ok ") && c06MetaPart(last) != c06MetaPart(want) {
+			cx.spec(prog, "restore-keeps-prior-state", fmt.Sprintf("snapshot after %d ops installed on a server that had applied %d ops: its metadata differs from a freshly started server restoring the same snapshot", k, j),
+				[]string{c06MetaPart(last)}, []string{c06MetaPart(want)})
+		}
+	}
+}
+
 func c06AllSplits(n int) [][2]int {
 	var s [][2]int
 	for k := 0; k <= n; k++ {
@@ -1519,6 +1594,12 @@ func TestVerifC06(t *testing.T) {
 		if len(ops) >= 1 { // k = 0 WITH a snapshot of the empty state
 			cx.judge2(ops)
 		}
+		// every snapshot point, installed on the server as it is at the end of the history
+		var inst [][2]int
+		for k := 0; k <= len(ops); k++ {
+			inst = append(inst, [2]int{k, len(ops)})
+		}
+		cx.installs(ops, inst)
 	})
 	res.Note(fmt.Sprintf("exhaustive: all %d valid histories of 1..%d ops over the %d-op alphabet, every split", nEx, depth, len(c06Alphabet)))
 	res.Exhaustive = true
@@ -1540,6 +1621,7 @@ func TestVerifC06(t *testing.T) {
 			cx.tornPairs = append(cx.tornPairs, [2]int{k, k + 1 + r.Intn(n-k)})
 		}
 		cx.judge(ops, splits, true, "random")
+		cx.installs(ops, [][2]int{{r.Intn(n + 1), n}, {r.Intn(n + 1), n}, {n / 2, n/2 + r.Intn(n-n/2+1)}})
 		if i < 3 {
 			res.Sample(map[string]interface{}{"history": ops})
 		}
